@@ -112,7 +112,7 @@ pub fn run(ctx: &mut Ctx) -> Result<(), Violation> {
         "libsodium 1.0.18 (libsodium-sys static build) is a correct reference".into(),
         "BLAKE2b model pinned by RFC 7693 'abc' vector at start-up".into(),
     ];
-    let nkeys = ctx.tier.pick(8usize, 64);
+    let nkeys = ctx.tier.pick(64usize, 512);
     let mut f = ctx.fill("ids");
     let mut ids: Vec<u64> = vec![0, 1, 2, 255, 256, u32::MAX as u64, 1 << 32, (1 << 63) - 1, 1 << 63, u64::MAX];
     ids.push(f.next_u64());
@@ -153,7 +153,7 @@ pub fn run(ctx: &mut Ctx) -> Result<(), Violation> {
         0usize..=80,
     )
         .prop_map(|(key, cx, id, len)| Case { key: Hex(key), ctx: Hex(cx), id, len });
-    let n = ctx.tier.pick(3000u32, 100_000);
+    let n = ctx.tier.pick(100_000u32, 1_000_000);
     let seed = ctx.seed;
     run_prop("C12", "kdf", seed, n, strat, &mut ctx.ev, |c, ev| {
         ev.eval(1);
